@@ -6,3 +6,10 @@ import Lcapy.Spec.TwoPort
 import Lcapy.Spec.TwoPortExec
 import Lcapy.Proofs.TwoPortBase
 import Lcapy.Props.C08
+import Lcapy.Model.GQ
+import Lcapy.Spec.Laws
+import Lcapy.Spec.LawsExec
+import Lcapy.Model.MNA
+import Lcapy.Model.Netlist
+import Lcapy.Proofs.MNA
+import Lcapy.Props.C01
